@@ -29,7 +29,7 @@ void cancelled(int j) {
 
 // kind 0: coroutine transfers itself with co_await pool
 cocls::async<void> k0(cocls::thread_pool &pool, int j) {
-    try { co_await pool; ran(pool, j); } catch (const cocls::await_canceled_exception &) { cancelled(j); }
+    try { co_await pool; ran(pool, j); } catch (const cocls::await_canceled_exception &) { cancelled(j); if (!pool.is_stopped()) dsim::fail("C11.cancelled_by_running_pool", "job %d was cancelled but the pool does not report that it is stopped", j); }
 }
 // kind 1: co_await pool(awaitable): resumed in the pool when the awaited future resolves
 cocls::async<void> k1(cocls::thread_pool &pool, cocls::future<long> &f, int j) {
